@@ -150,7 +150,17 @@ def build(spec, name=None):
         path = {'dslash': wd + os.sep + os.sep + name,
                 'dot': os.path.join(wd, '.', name),
                 'updown': os.path.join(wd, '..', os.path.basename(wd), name)}[form]
+    if spec.get('load_via') == 'handle':
+        # loaded from an open binary file object instead of a path (FCSData documents "str or file-like")
+        while len(_HANDLES) > 6:
+            _HANDLES.pop(0).close()
+        fh = open(path, 'rb')
+        _HANDLES.append(fh)
+        return FlowCal.io.FCSData(fh)
     return FlowCal.io.FCSData(path)
+
+
+_HANDLES = []
 
 
 def derived_from_used_parent(spec, lo=1, how='slice'):
